@@ -1,5 +1,5 @@
 \* exhaustive, copy/read-only focus: block > component + 2 pool ids (quick)
-CONSTANTS N = 4  Par = {"p", "q"}  NVal = 2  NGrid = 2  MaxDepth = 1  MaxLevel = 4
+CONSTANTS N = 4  Par = {"p", "q"}  NVal = 2  NGrid = 2  MaxDepth = 1  MaxLevel = 5
           GridSlot = "stack"  PickleSerial = "fresh"
 CONSTANTS Keeps <- KeepsSmall  Acts <- ActsCopy  Parent0 <- ParentD  Cls0 <- ClsD
           ParOf <- McParOf  GridCls <- McGridCls  MatCls <- McMatCls
